@@ -13,5 +13,5 @@ B=$(mktemp -d /var/tmp/verif-setup.XXXX)
 rm -rf "$B"
 # stub fidelity: the same micro-scenarios on the real OS and on the simulated kernel must agree
 (cd sim && /opt/veriftools/go1.26.8/bin/go test -count=1 -overlay /var/tmp/verif-overlay/overlay.json ./fidelity) || { echo "setup: kernel fidelity self-test failed" >&2; exit 2; }
-bin/verif selftest determinism --seeds 5 --reps 4 --props S00,C03,C07,C09 || exit 2
+bin/verif selftest determinism --seeds 5 --reps 4 --props S00,C03,C06,C07,C09 || exit 2
 echo "setup: ok"
